@@ -68,13 +68,11 @@ class An(reset.Analyzer):
         return reset._norm(expr_nf, al) == "N"
 
 
-_alias_cache = {}
-
-
 def auto_aliases(facts, spec):
     """size aliases of a struct, derived from its constructor: the constructor's only integer parameter, self.<field> for
     scalar fields initialised with it, self.<vec>.len() for vectors built with that size — plus the tabled extras"""
-    key = (id(facts), spec["name"])
+    _alias_cache = facts.__dict__.setdefault("_alias_cache", {})
+    key = spec["name"]
     if key in _alias_cache:
         return _alias_cache[key]
     al = list(spec["aliases"])
